@@ -1079,6 +1079,13 @@ class Interp:
 
     def learn_variant(self, st, key, var, depth=0):
         st.facts.add(("variant", key, var))
+        if var == "Err":
+            for f in list(st.facts):
+                if f[0] == "err_refine" and f[1] == key:
+                    sid_, lo_, hi_ = f[2]
+                    cur = self.iv(st, sid_)
+                    if cur[0] is not None and max(cur[0], lo_) <= min(cur[1], hi_):
+                        st.iv[sid_] = (max(cur[0], lo_), min(cur[1], hi_))
         if depth > 8 or var not in ("Some", "Ok", "Continue"):
             return
         for f in list(st.facts):
@@ -1432,6 +1439,24 @@ class Interp:
                     st.facts.add(("variant", dest, sub[1]))
             self.note_ok_posts(st, path, args, dest, at)
             return "summary"
+        # --- checked integer narrowing: Ok exactly when the value fits the target type
+        if p == "core::convert::TryFrom::try_from" and len(args) == 1:
+            m_tf = re.match(r"^<(\w+) as core::convert::TryFrom<(\w+)>>::try_from$", full)
+            if m_tf and ty_range(m_tf.group(1)) and ty_range(m_tf.group(2)):
+                tgt = ty_range(m_tf.group(1))
+                asid, alo, ahi, aprov = self.read_op(st, args[0], at)
+                lo_ = max(alo, tgt[0]) if alo is not None else tgt[0]
+                hi_ = min(ahi, tgt[1]) if ahi is not None else tgt[1]
+                if lo_ > hi_:
+                    lo_, hi_ = tgt
+                self.set_dest(st, dest, ("as Ok", ".0"), lo_, hi_, aprov or frozenset(), at, None, m_tf.group(1))
+                if asid is not None:
+                    src = ty_range(m_tf.group(2))
+                    st.facts.add(("ok_refine", dest, (asid, tgt[0], tgt[1], None)))
+                    if tgt[0] <= src[0]:
+                        # the only way to fail is to be too large
+                        st.facts.add(("err_refine", dest, (asid, tgt[1] + 1, src[1])))
+                return "pure"
         # --- ? desugaring
         if p == "core::ops::try_trait::Try::branch":
             src = op_place(args[0])
